@@ -223,6 +223,9 @@ func (c *Ctx) finish() {
 			continue
 		}
 		nviol++
+		if nviol > 200 {
+			continue // counted, not listed: one changed line can break tens of thousands of generated inputs
+		}
 		dir := filepath.Join(verifRoot, "replays", c.ID)
 		os.MkdirAll(dir, 0o755)
 		path := filepath.Join(dir, v.Key+".json")
@@ -272,6 +275,9 @@ func (c *Ctx) finish() {
 	must(os.WriteFile(filepath.Join(verifRoot, "evidence", c.ID+".json"), b, 0o644))
 	for _, l := range out {
 		fmt.Println(l)
+	}
+	if nviol > 200 {
+		fmt.Printf("(%d further violations are counted but not listed)\n", nviol-200)
 	}
 	fmt.Printf("%s %s: evaluations=%d distinct=%d states=%d traces_vs_impl=%d violations=%d wall=%.1fs\n",
 		c.ID, c.Tier, c.Evaluations, dn, c.States, c.TracesVsImpl, nviol, wall)
